@@ -53,6 +53,9 @@ CTX_TYPES = {
     "strptime": "Str → Str → Option DateTime",          # dt.datetime.strptime (none = ValueError)
     "datetime_date": "DateTime → Date",                 # datetime.date()
     "sub_msg_template": "Str → Str",                    # cli._sub_msg_template (re.sub on a message template)
+    # `show --env/--environ`: the KEY=value lines of `for key, val in vinfo._asdict().items(): click.echo(f"…")`,
+    # as a function of the SOURCE TEXT of the f-string and of the parsed version (the rendering is not modelled)
+    "env_dump": "String → VInfo → List Str",
 }
 CTX_IMPLICIT = {"strptime": "{DateTime : Type}", "datetime_date": "{DateTime : Type}"}
 
@@ -128,7 +131,7 @@ ERASED_CALLS = {"_log_no_change"}
 EXC_CLASSES = dict(TE.EXC_CLASSES)
 EXC_CLASSES.update({"version.PatternError": "patternError", "PatternError": "patternError"})
 
-CLICK_DECORATORS = ("cli.command", "click.argument", "click.option", "verbose_option", "version_options", "dry_option",
+CLICK_DECORATORS = ("env_option", "environ_option", "cli.command", "click.argument", "click.option", "verbose_option", "version_options", "dry_option",
                     "allow_dirty_option", "ignore_vcs_tag_option", "fetch_option")
 
 # ----------------------------------------------------------------------------------
@@ -172,6 +175,14 @@ LFUNCS = [
          # `set(cfg.file_patterns.keys())` inside `_update` (translate_effects.py abstracts it the same way)
          extra_params=[("filepaths_x", LIST(STR))], ret=UNIT),
 ]
+LFUNCS.append(
+    dict(name="cmdShow", filebase="Show", file="cli.py", func="show", command=True, generic=True,   # `show` is a Lean keyword
+         params=[("verbose", INT), ("ignore_vcs_tag", BOOL), ("fetch", BOOL), ("env", BOOL), ("environ", BOOL)],
+         defaults=dict(verbose=0, ignore_vcs_tag=False, fetch=True, env=False, environ=False),
+         ctx=["today", "env_dump"],
+         externs={"_VERBOSE": ("verbose_global", INT),
+                  "config.init(project_path='.')": ("config_init_x", TUP(CTXOBJ, OPT(CONFIG)))},
+         implicit_extra=["{Ctx : Type}"], ret=UNIT))
 BY_FUNC = {s["func"]: s for s in LFUNCS}
 
 
@@ -626,6 +637,29 @@ class CmdTranslator(TE.EffTranslator):
             return lets + kr(env2)
         return TE.EffTranslator.block(self, stmts, env, k)
 
+    def for_stmt(self, st, rest, env, k):
+        """for key, val in <vinfo>._asdict().items(): click.echo(f"…")   — the KEY=value dump of `show --env/--environ`:
+             Cmd.bind (Cmd.echoAll (env_dump "<source text of the f-string>" vinfo)) (fun _ => REST)"""
+        it = st.iter
+        if (isinstance(it, ast.Call) and isinstance(it.func, ast.Attribute) and it.func.attr == "items" and not it.args
+                and isinstance(it.func.value, ast.Call) and isinstance(it.func.value.func, ast.Attribute)
+                and it.func.value.func.attr == "_asdict" and not it.func.value.args):
+            obj = it.func.value.func.value
+            v, t = self.expr(obj, env)
+            if t == VINFO2:
+                body = [b for b in st.body if not self.is_noop(b, env)]
+                if (st.orelse or len(body) != 1 or not isinstance(body[0], ast.Expr)
+                        or not isinstance(body[0].value, ast.Call) or self.dotted(body[0].value.func) != "click.echo"
+                        or len(body[0].value.args) != 1 or body[0].value.keywords
+                        or not isinstance(body[0].value.args[0], ast.JoinedStr)):
+                    self.bad(st, "the dump loop must be `for key, val in vinfo._asdict().items(): click.echo(f\"…\")`")
+                self.need_ctx(st, "env_dump")
+                self.need_import("BumpverVerif.Model.CmdShow")
+                text = ast.unparse(body[0].value.args[0])
+                lit = '"' + text.replace("\\", "\\\\").replace('"', '\\"') + '"'
+                return "Eff.bind (Eff.echoAll (env_dump %s %s)) (fun _ =>\n%s)" % (lit, v, self.block(rest, env, k))
+        return TE.EffTranslator.for_stmt(self, st, rest, env, k)
+
     def key_func(self, node, fname):
         return TC.CliTranslator.key_func(self, node, fname)
 
@@ -812,7 +846,8 @@ def qualify(text):
 
 
 def file_name(spec):
-    return "F_cmd%s.lean" % (spec["name"][0].upper() + spec["name"][1:])
+    base = spec.get("filebase") or (spec["name"][0].upper() + spec["name"][1:])
+    return "F_cmd%s.lean" % base
 
 
 def render_types(sources):
